@@ -43,7 +43,11 @@ FmtArgs == {S(<<"a", "b">>), S(<<"x", "b", "acute", "d">>), S(<<"wave", "tone", 
 ArgLs == {<<>>} \cup {<<x>> : x \in FmtArgs} \cup {<<x, y>> : x \in TakeN(FmtArgs, 9), y \in {S(<<"a", "b">>), NumV(8), NumV(-12)}}
 Pick(n, S0) == IF Cardinality(S0) <= n THEN S0 ELSE RandomSubset(n, S0)
 Formats == Pick(IF Thorough THEN 5000 ELSE 350, Fmt1) \cup Pick(IF Thorough THEN 2500 ELSE 150, Fmt2) \cup FmtBad
-FormatLists == {<<S(f)>> \o al : f \in Formats, al \in ArgLs}
+\* three verbs with explicit / implicit argument indices: the index threading ("next argument" after an explicit index)
+VerbsIdx == {<<"%">> \o ix \o <<m>> : ix \in {<<>>, <<"[", "1", "]">>, <<"[", "2", "]">>, <<"[", "3", "]">>}, m \in {"s", "v"}}
+Fmt3 == {v1 \o <<"|">> \o v2 \o <<"|">> \o v3 : v1 \in VerbsIdx, v2 \in VerbsIdx, v3 \in VerbsIdx}
+Args3 == {<<S(<<"a">>), NumV(8), S(<<"x">>)>>, <<S(<<"a">>), NumV(8)>>, <<NumV(4), S(<<"b", "acute">>), BoolV(TRUE), S(<<"x">>)>>}
+FormatLists == {<<S(f)>> \o al : f \in Formats, al \in ArgLs} \cup {<<S(f)>> \o al : f \in Pick(IF Thorough THEN 600 ELSE 200, Fmt3), al \in Args3}
 FLArgs == {SeqV(TList(TStr), <<S(<<"a">>), S(<<"b", "acute">>)>>), SeqV(TList(TNum), <<NumV(4), NumV(8)>>), SeqV(TList(TStr), <<>>), SeqV(TList(TNum), <<NumV(4)>>),
            SeqV(TTup(<<TNum, TStr>>), <<NumV(4), S(<<"a">>)>>), S(<<"x">>), NumV(12), Null(TStr)}
 FormatListLists == {<<S(f)>> \o al : f \in {<<"%", "s">>, <<"%", "s", "-", "%", "d">>, <<"%", "3", "v", "%", "[", "1", "]", "s">>, <<"a">>, <<"%", "d">>, <<"%", "-", "3", "s", "|", "%", "v">>},
